@@ -95,6 +95,9 @@ def oracle(case, out):
     parts = out.split("|")
     if len(parts) != 3:
         return "unparsable observation"
+    if parts[0].endswith("!detached"):
+        return ("the remainder the parser returned is not the tail of the token list (a slice of an earlier sub-parse): "
+                "tokens at the end of the input were never consumed")
     if parts[0] != "0":
         return "the parser left %s tokens unconsumed" % parts[0]
     if "99=n1" in parts[1]:
